@@ -289,11 +289,23 @@ class BMC:
         return res
 
     # ---------------------------------------------------------------- solving
-    def to_cnf(self, extra, path):
+    def to_cnf(self, extra, path, plain=False):
         g = z3.Goal()
         g.add(*self.asserts); g.add(*extra)
         t0 = time.time()
-        sub = z3.Then("simplify", "propagate-values", "solve-eqs", "elim-uncnstr", "simplify", "bit-blast", "tseitin-cnf")(g)[0]
+        if plain:
+            # equivalence-preserving chain only: the named Boolean scheduler bits keep their meaning, so a SAT model can be decoded
+            sub = z3.Then("simplify", "propagate-values", "simplify", "bit-blast", "tseitin-cnf")(g)[0]
+        else:
+            sub = z3.Then("simplify", "propagate-values", "solve-eqs", "elim-uncnstr", "simplify", "bit-blast", "tseitin-cnf")(g)[0]
+        # fail closed: every literal of the CNF goal must be a propositional constant (an interpreted atom left over by the
+        # bit-blaster would be exported as a free variable, i.e. silently weaken the query)
+        for i in range(len(sub)):
+            c = sub[i]
+            for l in (c.children() if z3.is_or(c) else [c]):
+                a = l.arg(0) if z3.is_not(l) else l
+                if a.num_args() > 0:
+                    raise EncodingError("bit-blasting left an interpreted atom in the CNF: " + a.sexpr()[:200])
         txt = sub.dimacs(True)
         open(path, "w").write(txt)
         head = txt.split("\n", 1)[0].split()
@@ -318,6 +330,18 @@ class BMC:
         if "s UNSATISFIABLE" in out:
             return dict(info, verdict="unsat", solver_s=dt)
         if "s SATISFIABLE" in out:
+            # decode: re-encode without variable-eliminating tactics (models of the reduced formula do not carry over) and solve again
+            path2 = os.path.join(workdir, name + "-plain.cnf")
+            info2 = self.to_cnf(extra, path2, plain=True)
+            names = info2.pop("names")
+            try:
+                p = subprocess.run(["kissat", "-q", path2], stdout=subprocess.PIPE, stderr=subprocess.STDOUT, text=True, timeout=timeout_s)
+                out = p.stdout
+            except subprocess.TimeoutExpired:
+                return dict(info, verdict="unknown", solver_s=time.time() - t0, why="kissat timeout on the decodable re-encoding")
+            if "s SATISFIABLE" not in out:
+                return dict(info, verdict="unknown", solver_s=time.time() - t0, why="reduced and plain encodings disagree (sat vs %s)" % out[-60:])
+            dt = time.time() - t0
             lits = set()
             for l in out.splitlines():
                 if l.startswith("v "): lits.update(int(x) for x in l[2:].split())
